@@ -459,3 +459,67 @@ def ext_doc(r, names, extra=()):
     if r.random() < 0.5:
         return [val(1) for _ in range(r.randint(1, 5))]
     return {r.choice(names + ["", "k%d" % i]): val(1) for i in range(r.randint(1, 5))}
+
+
+# ---------------------------------------------------------------- other Mapping / Sequence implementations
+
+def exotic(doc, r, p=0.4):
+    """The same JSON value built from other Mapping/Sequence implementations the library says it
+    accepts (tuple, OrderedDict, UserDict, MappingProxyType, dict subclass with __missing__)."""
+    import collections
+    import types
+
+    class Missing(dict):
+        def __missing__(self, key):
+            return "DEFAULT-FROM-__missing__"
+
+    def conv(v, depth):
+        if isinstance(v, dict):
+            d = {k: conv(x, depth + 1) for k, x in v.items()}
+            if r.random() < p:
+                kind = r.choice(["ordered", "user", "proxy"])
+                if kind == "ordered":
+                    return collections.OrderedDict(d)
+                if kind == "user":
+                    return collections.UserDict(d)
+                return types.MappingProxyType(d)
+            return d
+        if isinstance(v, list):
+            l = [conv(x, depth + 1) for x in v]
+            if r.random() < p:
+                kind = r.choice(["tuple", "userlist", "custom"])
+                if kind == "tuple":
+                    return tuple(l)
+                if kind == "userlist":
+                    return collections.UserList(l)
+                return CustomSeq(l)
+            return l
+        return v
+    return conv(doc, 0)
+
+
+import collections.abc as _abc
+
+
+class CustomSeq(_abc.Sequence):
+    """A user-defined array type (collections.abc.Sequence), as the documentation allows."""
+
+    def __init__(self, items):
+        self._items = list(items)
+
+    def __getitem__(self, i):
+        return self._items[i]
+
+    def __len__(self):
+        return len(self._items)
+
+
+def plain(v):
+    """Back to dict/list (for comparison)."""
+    from collections.abc import Mapping, Sequence
+
+    if isinstance(v, Mapping):
+        return {k: plain(x) for k, x in v.items()}
+    if isinstance(v, Sequence) and not isinstance(v, (str, bytes)):
+        return [plain(x) for x in v]
+    return v
